@@ -81,6 +81,10 @@ class Wsdl(object):
             if not isinstance(e.tag, str):
                 continue
             in_schema = e.tag.startswith('{%s}' % XS)
+            if e.tag in (q(XS, 'import'), q(XS, 'include')) and e.get('schemaLocation') is not None:
+                # the WSDL is all a client gets: a location of another document cannot be followed from it
+                out.append('xs:%s of %r points at schemaLocation=%r, a document outside the WSDL' % (
+                    etree.QName(e).localname, e.get('namespace'), e.get('schemaLocation')))
             for attr, kinds in (('type', 'type'), ('base', 'type'), ('itemType', 'type'), ('ref', 'ref'), ('element', 'element'),
                                 ('message', 'message'), ('binding', 'binding')):
                 v = e.get(attr)
